@@ -12,5 +12,5 @@ for p in "$@"; do
   echo "== $p exit=$r"
   [ $r -ne 0 ] && rc=1
 done
-git -C /repo checkout -- . 
+git -C /repo checkout -q -- . && git -C /repo clean -fdq
 exit $rc
